@@ -2,7 +2,7 @@
 From Coq Require Import List NArith ZArith Bool Lia ZifyBool ZifyN ZifyNat.
 From Coq.Strings Require Import Byte.
 Require Import GV.Base.Res GV.Base.Byt GV.Base.Ints GV.Model.Leb GV.Model.Prim GV.Spec.LebSpec.
-Require Import GV.Spec.CfiSpec GV.Model.CfiRd GV.Proofs.CfiRdBase GV.Proofs.CfiRdPtr.
+Require Import GV.Spec.CfiSpec GV.Model.CfiRd GV.Proofs.CfiRdBase GV.Proofs.CfiRdPtr GV.Proofs.CfiRdIter GV.Proofs.CfiRdSafe.
 Import ListNotations.
 Local Open Scope N_scope.
 
@@ -507,4 +507,261 @@ Proof.
         cbn [bind]. injection Hexp as <-. reflexivity.
       * cbn [bind]. injection Hexp as <-. reflexivity.
     + destruct (ci_aug ci) as [a|]; [discriminate|]. cbn [bind]. injection Hexp as <-. reflexivity.
+Qed.
+
+(* ------------------------------------------------------------------ whole FDE entry (partial parse) *)
+Definition fde_idv (c : scfg) (pos co : N) : N := if sc_eh c then pos - co else co.
+
+Lemma cie_pointer_bytes : forall c fmt64 pos co,
+  cie_pointer (sp_of c) fmt64 pos co = un_bytes (idsz_of c fmt64) (sc_be c) (fde_idv c pos co).
+Proof.
+  intros. unfold cie_pointer, idsz_of, fde_idv, cie_id_is_u64. cbn [sp_of s_eh s_be].
+  destruct (sc_eh c), fmt64; reflexivity.
+Qed.
+
+Definition fde_body (c : scfg) (cr : cie_rec) (co o : N) (f : fde_rec) : list byte :=
+  cie_pointer (sp_of c) (f_fmt64 f) (o + len_field_size (f_fmt64 f)) co ++ fde_tail (sp_of c) cr f.
+
+(* where the CIE may sit relative to the FDE so that the pointer designates it *)
+Definition cie_ref_ok (c : scfg) (fmt64 : bool) (o co : N) : Prop :=
+  if sc_eh c then co < o + len_field_size fmt64 /\ o + len_field_size fmt64 - co < 2 ^ 32
+  else co < (if fmt64 then 2 ^ 64 - 1 else 2 ^ 32 - 1).
+
+Lemma parse_cfi_entry_fde : forall dbg c cr co o f rest,
+  body_fits (f_fmt64 f) (fde_body c cr co o f) -> cie_ref_ok c (f_fmt64 f) o co ->
+  parse_cfi_entry dbg c (mkrd o (enc_fde (sp_of c) cr co o f ++ rest)) =
+  Ok (Some (IFde (mkpfde o (blen (fde_body c cr co o f)) (f_fmt64 f) co
+                         (mkrd (tail_off c (f_fmt64 f) o) (fde_tail (sp_of c) cr f)))),
+      mkrd (o + blen (enc_fde (sp_of c) cr co o f)) rest).
+Proof.
+  intros dbg c cr co o f rest Hfit Href. unfold parse_cfi_entry, enc_fde. cbv zeta.
+  fold (fde_body c cr co o f). cbn [s_be sp_of]. unfold fde_body in *. rewrite cie_pointer_bytes in *.
+  rewrite <- app_assoc.
+  set (pos := o + len_field_size (f_fmt64 f)) in *.
+  assert (Hidv : fde_idv c pos co < 256 ^ N.of_nat (idsz_of c (f_fmt64 f))).
+  { unfold fde_idv, idsz_of, cie_id_is_u64, cie_ref_ok in *. fold pos in Href.
+    destruct (sc_eh c); cbn [negb andb].
+    - change (256 ^ N.of_nat 4) with (2 ^ 32). lia.
+    - destruct (f_fmt64 f); [change (256 ^ N.of_nat 8) with (2 ^ 64)|change (256 ^ N.of_nat 4) with (2 ^ 32)]; lia. }
+  pose proof (parse_prefix_enc c (f_fmt64 f) (fde_idv c pos co) (fde_tail (sp_of c) cr f) rest o) as Hp.
+  cbv zeta in Hp. unfold idsz_of in *. rewrite Hp; [|exact Hidv|exact Hfit]. clear Hp.
+  cbn [bind px_fmt64 px_id].
+  assert (Hnot : is_cie (sc_eh c) (f_fmt64 f) (fde_idv c pos co) = false).
+  { unfold is_cie, fde_idv, cie_ref_ok in *. fold pos in Href. destruct (sc_eh c); [lia|].
+    destruct (f_fmt64 f); [change (2 ^ 64 - 1) with 18446744073709551615 in Href|change (2 ^ 32 - 1) with 4294967295 in Href]; lia. }
+  rewrite Hnot. unfold pfde_from_prefix. cbn [px_base px_id px_off px_len px_fmt64 px_rest].
+  assert (Hres : resolve_cie_offset (sc_eh c) pos (fde_idv c pos co) = Some co).
+  { unfold resolve_cie_offset, fde_idv, cie_ref_ok in *. fold pos in Href. destruct (sc_eh c); [|reflexivity].
+    destruct (pos - co <=? pos) eqn:E; [|lia]. f_equal. lia. }
+  fold pos. rewrite Hres. cbn [bind]. unfold tail_off, idsz_of. fold pos.
+  do 3 f_equal. nlen_norm. rewrite nlen_initial_length. lia.
+Qed.
+
+(* the size of an encoded FDE does not depend on where it or its CIE is placed *)
+Lemma enc_fde_len : forall sp cr co o f, blen (enc_fde sp cr co o f) = blen (enc_fde sp cr 0 0 f).
+Proof.
+  intros. unfold enc_fde. cbv zeta. change blen with nlen. nlen_norm. rewrite !nlen_initial_length.
+  assert (H : forall pos co', nlen (cie_pointer sp (f_fmt64 f) pos co') = N.of_nat (if s_eh sp then 4 else if f_fmt64 f then 8 else 4)%nat).
+  { intros. unfold cie_pointer. destruct (s_eh sp); [|destruct (f_fmt64 f)]; apply nlen_un_bytes. }
+  rewrite !H. reflexivity.
+Qed.
+
+(* ------------------------------------------------------------------ fuel independence of next() *)
+Lemma iter_next_fuel_indep : forall f1 f2 dbg c input,
+  (length (win input) < f1)%nat -> (length (win input) < f2)%nat ->
+  iter_next f1 dbg c input = iter_next f2 dbg c input.
+Proof.
+  induction f1 as [|f1 IH]; intros f2 dbg c input H1 H2; [lia|].
+  destruct f2 as [|f2]; [lia|]. cbn [iter_next].
+  destruct (rd_is_empty input); [reflexivity|].
+  destruct (parse_cfi_entry dbg c input) as [[o in1]|e| |] eqn:E; try reflexivity.
+  destruct o as [it|]; [reflexivity|]. destruct (sc_eh c); [reflexivity|].
+  assert (Hs : (length (win in1) + 4 <= length (win input))%nat).
+  { unfold parse_cfi_entry in E. apply bind_ok in E as ([opx in0] & Hp & E).
+    destruct opx as [px|].
+    - destruct (is_cie _ _ _).
+      + apply bind_ok in E as (x & _ & E). discriminate.
+      + apply bind_ok in E as (x & _ & E). discriminate.
+    - injection E as <-. unfold parse_prefix in Hp.
+      apply bind_ok in Hp as ([[len fmt64] in2] & Hl & Hp).
+      unfold lift in Hl. destruct (read_initial_length (sc_be c) (win input)) as [[x rest]| | |] eqn:El; cbn [bind] in Hl; try discriminate.
+      injection Hl as _ <-.
+      assert (Hrl : (length rest + 4 <= length (win input))%nat).
+      { unfold read_initial_length in El. apply bind_ok in El as ([v r0] & Hv & El).
+        unfold read_un, read_bytes in Hv. destruct (take 4 (win input)) as [[h t]|] eqn:Et; cbn [bind] in Hv; [|discriminate].
+        injection Hv as _ <-. apply take_some_len in Et as [Hw Hh].
+        destruct (v <? 4294967280).
+        - injection El as _ <-. rewrite Hw, app_length. lia.
+        - destruct (v =? 4294967295); [|discriminate].
+          apply bind_ok in El as ([v8 r8] & Hv8 & El). injection El as _ <-.
+          unfold read_un, read_bytes in Hv8. destruct (take 8 t) as [[h8 t8]|] eqn:Et8; cbn [bind] in Hv8; [|discriminate].
+          injection Hv8 as _ <-. apply take_some_len in Et8 as [Hw8 Hh8]. rewrite Hw, Hw8, !app_length. lia. }
+      destruct (len =? 0).
+      + injection Hp as <-. cbn [win]. exact Hrl.
+      + apply bind_ok in Hp as ([r1 in3] & _ & Hp). apply bind_ok in Hp as ([id rest1] & _ & Hp). discriminate. }
+  apply IH; lia.
+Qed.
+
+(* ------------------------------------------------------------------ whole sections *)
+Lemma rd_is_empty_app : forall o (l r : list byte), (0 < length l)%nat -> rd_is_empty (mkrd o (l ++ r)) = false.
+Proof. intros o [|b l] r H; [cbn [length] in H; lia|reflexivity]. Qed.
+
+Lemma initial_length_len : forall be fmt64 len, (0 < length (initial_length be fmt64 len))%nat.
+Proof.
+  intros. pose proof (nlen_initial_length be fmt64 len) as H. unfold nlen, len_field_size in H.
+  destruct fmt64; lia.
+Qed.
+
+Lemma enc_cie_len : forall sp cr, (0 < length (enc_cie sp cr))%nat.
+Proof. intros. unfold enc_cie. cbv zeta. rewrite app_length. pose proof (initial_length_len (s_be sp) (c_fmt64 cr) (blen (cie_id sp (c_fmt64 cr) ++ cie_tail sp cr))). lia. Qed.
+
+Lemma enc_fde_len_pos : forall sp cr co o f, (0 < length (enc_fde sp cr co o f))%nat.
+Proof.
+  intros. unfold enc_fde. cbv zeta. rewrite app_length.
+  match goal with |- (0 < length (initial_length ?a ?b ?l) + _)%nat => pose proof (initial_length_len a b l) end. lia.
+Qed.
+
+Section Sections.
+  Variables (dbg : bool) (c : scfg) (es : list entry).
+  Let sp := sp_of c.
+  Let offs := offsets sp es.
+
+  Definition cr_of (f : fde_rec) : cie_rec :=
+    match cie_at es (f_cie f) with Some cr => cr | None => dummy_cie end.
+  Definition co_of (f : fde_rec) : N := nth (f_cie f) offs 0.
+
+  Definition exp_pfde (o : N) (f : fde_rec) : pfde :=
+    mkpfde o (blen (fde_body c (cr_of f) (co_of f) o f)) (f_fmt64 f) (co_of f)
+           (mkrd (tail_off c (f_fmt64 f) o) (fde_tail sp (cr_of f) f)).
+
+  (* the items the iterator must report for the entry list l placed at offset o *)
+  Fixpoint exp_items (o : N) (l : list entry) : option (list item) :=
+    match l with
+    | [] => Some []
+    | ECie cr :: r =>
+        match exp_aug c cr (cie_dpos c cr (tail_off c (c_fmt64 cr) o)),
+              exp_items (o + entry_size sp es (ECie cr)) r with
+        | Some aug, Some items =>
+            Some (ICie (exp_cie c cr o (blen (cie_body c cr)) (tail_off c (c_fmt64 cr) o) aug) :: items)
+        | _, _ => None
+        end
+    | EFde f :: r =>
+        match exp_items (o + entry_size sp es (EFde f)) r with
+        | Some items => Some (IFde (exp_pfde o f) :: items)
+        | None => None
+        end
+    | EZero :: r => if sc_eh c then Some [] else exp_items (o + 4) r
+    end.
+
+  Fixpoint wf_entries (o : N) (l : list entry) : Prop :=
+    match l with
+    | [] => True
+    | ECie cr :: r =>
+        wf_cie c cr /\ body_fits (c_fmt64 cr) (cie_body c cr) /\ wf_entries (o + entry_size sp es (ECie cr)) r
+    | EFde f :: r =>
+        body_fits (f_fmt64 f) (fde_body c (cr_of f) (co_of f) o f) /\ cie_ref_ok c (f_fmt64 f) o (co_of f) /\
+        wf_entries (o + entry_size sp es (EFde f)) r
+    | EZero :: r => wf_entries (o + 4) r
+    end.
+
+  Lemma enc_entries_cons : forall o e r,
+    enc_entries sp es offs o (e :: r) = enc_entry sp es offs o e ++ enc_entries sp es offs (o + entry_size sp es e) r.
+  Proof. reflexivity. Qed.
+
+  Lemma entries_loop_enc : forall l o fuel items,
+    (length l < fuel)%nat -> wf_entries o l -> exp_items o l = Some items ->
+    entries_loop fuel dbg c (mkrd o (enc_entries sp es offs o l)) = Ok (items, None).
+  Proof.
+    induction l as [|e r IH]; intros o fuel items Hf Hwf Hexp.
+    - destruct fuel as [|f]; [cbn [length] in Hf; lia|]. injection Hexp as <-. reflexivity.
+    - destruct fuel as [|f]; [lia|]. cbn [length] in Hf.
+      rewrite enc_entries_cons.
+      destruct e as [cr|fr|].
+      + (* CIE *)
+        cbn [wf_entries exp_items] in Hwf, Hexp. destruct Hwf as (Hwc & Hfit & Hwr).
+        destruct (exp_aug c cr _) as [aug|] eqn:Haug; [|discriminate].
+        destruct (exp_items _ r) as [items'|] eqn:Hitems; [|discriminate]. injection Hexp as <-.
+        rewrite entries_loop_S. unfold iter_fuel. cbn [win]. rewrite iter_next_S.
+        cbn [enc_entry]. rewrite rd_is_empty_app by apply enc_cie_len.
+        unfold sp. rewrite (parse_cfi_entry_cie dbg c cr o _ aug Hwc Hfit Haug). cbn [bind].
+        fold sp. cbn [entry_size] in *. rewrite (IH _ f items'); [reflexivity|lia|exact Hwr|exact Hitems].
+      + (* FDE *)
+        cbn [wf_entries exp_items] in Hwf, Hexp. destruct Hwf as (Hfit & Href & Hwr).
+        destruct (exp_items _ r) as [items'|] eqn:Hitems; [|discriminate]. injection Hexp as <-.
+        rewrite entries_loop_S. unfold iter_fuel. cbn [win]. rewrite iter_next_S.
+        cbn [enc_entry]. fold (cr_of fr). fold (co_of fr).
+        rewrite rd_is_empty_app by apply enc_fde_len_pos.
+        unfold sp. rewrite (parse_cfi_entry_fde dbg c (cr_of fr) (co_of fr) o fr _ Hfit Href). cbn [bind].
+        fold sp.
+        assert (Hsz : blen (enc_fde sp (cr_of fr) (co_of fr) o fr) = entry_size sp es (EFde fr)).
+        { cbn [entry_size]. fold (cr_of fr). apply enc_fde_len. }
+        rewrite Hsz. unfold exp_pfde. fold sp.
+        rewrite (IH _ f items'); [reflexivity|lia|exact Hwr|exact Hitems].
+      + (* zero length *)
+        cbn [wf_entries exp_items] in Hwf, Hexp.
+        rewrite entries_loop_S. unfold iter_fuel. cbn [win]. rewrite iter_next_S.
+        cbn [enc_entry entry_size].
+        rewrite rd_is_empty_app by (rewrite un_bytes_length; lia).
+        assert (Hp : parse_cfi_entry dbg c (mkrd o (un_bytes 4 (s_be sp) 0 ++ enc_entries sp es offs (o + 4) r))
+                     = Ok (None, mkrd (o + 4) (enc_entries sp es offs (o + 4) r))).
+        { unfold parse_cfi_entry, parse_prefix.
+          erewrite lift_app.
+          2:{ pose proof (read_initial_length_enc (sc_be c) false 0 (enc_entries sp es offs (o + 4) r)) as H0.
+              unfold initial_length in H0. apply H0. lia. }
+          cbn [bind]. change (0 =? 0) with true. cbv iota. cbn [bind].
+          rewrite nlen_un_bytes. reflexivity. }
+        rewrite Hp.
+        destruct (sc_eh c) eqn:Eeh.
+        * injection Hexp as <-. reflexivity.
+        * (* .debug_frame: the zero length is skipped *)
+          pose proof (entries_loop_S f dbg c (mkrd (o + 4) (enc_entries sp es offs (o + 4) r))) as HS.
+          unfold iter_fuel in HS. cbn [win] in HS.
+          rewrite (iter_next_fuel_indep _ (S (length (enc_entries sp es offs (o + 4) r)))).
+          -- rewrite <- HS. apply IH; [lia|exact Hwf|exact Hexp].
+          -- cbn [win]. rewrite app_length, un_bytes_length. lia.
+          -- cbn [win]. lia.
+  Qed.
+End Sections.
+
+(* ------------------------------------------------------------------ CIE/FDE linkage *)
+Lemma aug_fold_links : forall asz be b items pos a a',
+  aug_fold asz be b items pos a = Some a' ->
+  a_fde_enc a' = (match find_R items with Some e => Some e | None => a_fde_enc a end) /\
+  a_lsda a' = (match find_L items with Some e => Some e | None => a_lsda a end).
+Proof.
+  induction items as [|it r IH]; intros pos a a' H.
+  - injection H as <-. auto.
+  - destruct it as [e|e raw|e|]; cbn [aug_fold find_R find_L] in *.
+    + destruct (_ && _); [|discriminate]. apply IH in H as [H1 H2]. cbn [set_lsda a_fde_enc a_lsda] in *.
+      rewrite H1, H2. destruct (find_R r), (find_L r); auto.
+    + destruct (_ && _ && _ && _); [|discriminate]. destruct (ptr_spec _ _ _ _ _) as [[ind addr]|]; [|discriminate].
+      apply IH in H as [H1 H2]. cbn [set_pers a_fde_enc a_lsda] in *.
+      rewrite H1, H2. destruct (find_R r), (find_L r); auto.
+    + destruct (_ && _); [|discriminate]. apply IH in H as [H1 H2]. cbn [set_fde_enc a_fde_enc a_lsda] in *.
+      rewrite H1, H2. destruct (find_R r), (find_L r); auto.
+    + apply IH in H as [H1 H2]. cbn [set_sig a_fde_enc a_lsda] in *.
+      rewrite H1, H2. destruct (find_R r), (find_L r); auto.
+Qed.
+
+Lemma all_S_find : forall items,
+  forallb (fun i => match i with AS => true | _ => false end) items = true ->
+  find_R items = None /\ find_L items = None.
+Proof.
+  induction items as [|it r IH]; intros H; [auto|]. cbn [forallb] in H. apply andb_true_iff in H as [H1 H2].
+  destruct it; try discriminate. cbn [find_R find_L]. destruct (IH H2) as [-> ->]. auto.
+Qed.
+
+Lemma exp_cie_links : forall c cr o len t dpos aug,
+  exp_aug c cr dpos = Some aug -> cie_links c cr (exp_cie c cr o len t aug).
+Proof.
+  intros c cr o len t dpos aug H. unfold cie_links, exp_cie. cbn [ci_asz ci_aug].
+  split; [reflexivity|]. unfold exp_aug in H. unfold has_aug. cbv zeta in H.
+  destruct (c_z cr) eqn:Ez.
+  - destruct (aug_fold _ _ _ _ _ _) as [a|] eqn:Hf; [|discriminate]. injection H as <-.
+    apply aug_fold_links in Hf as [H1 H2]. cbn [aug_default a_fde_enc a_lsda] in *.
+    rewrite H1, H2. cbn [orb]. destruct (find_R (c_items cr)), (find_L (c_items cr)); auto.
+  - destruct (c_items cr) as [|i0 items] eqn:Ei.
+    + injection H as <-. cbn [find_R find_L orb negb]. auto.
+    + destruct (forallb _ (i0 :: items)) eqn:Efa; [|discriminate]. injection H as <-.
+      apply all_S_find in Efa as [-> ->]. cbn [set_sig aug_default a_fde_enc a_lsda orb negb]. auto.
 Qed.
